@@ -202,6 +202,29 @@ def h_call(ctx: int, callee: int, inner: int, shape: int) -> bool:
     return rejected == must_reject
 
 
+def h_sequence(ctx1: int, ctx2: int, callee: int) -> bool:
+    """
+    pre: 0 <= ctx1 < 8 and 0 <= ctx2 < 8 and 0 <= callee < 8
+    post: _
+    """
+    # the same callee (one definition id) called with a qubit from two contexts, one after the other: the verdict on the
+    # second call may not depend on the first (nothing about a callee may be remembered across blocks, contexts or checker instances)
+    c1, c2, kf = FLAGS[ctx1], FLAGS[ctx2], FLAGS[callee]
+    with NoTracing():
+        _GLOBALS.clear()
+    call = mkcall(1, kf, [place("q", Q)], I)
+    out = []
+    for cf in (c1, c2):
+        call2 = _loc(with_type(I, GlobalCall(def_id=call.def_id, args=[place("q", Q)], type_args=[])))
+        bb, _ = _block(call2, 0, I)
+        try:
+            BBUnitaryChecker().check(bb, cf)
+            out.append(False)
+        except GuppyError:
+            out.append(True)
+    return out == [bad(c1, kf), bad(c2, kf)]
+
+
 def h_exempt(ctx: int, which: bool) -> bool:
     """
     pre: 0 <= ctx < 8
